@@ -77,6 +77,8 @@ inductive CExp where
   | input (x : String)
   | add (a b : CExp)
   | sub (a b : CExp)
+  /-- the name of a local (`locals { x: c, }`), standing for its expression -/
+  | loc (x : String) (c : CExp)
 
 namespace CExp
 
@@ -86,6 +88,7 @@ def toL : CExp → LExpr
   | input x => .leaf (.id x)
   | add a b => .node .add [a.toL, b.toL]
   | sub a b => .node .sub [a.toL, b.toL]
+  | loc x _ => .leaf (.id x)
 
 /-- What the source says, class by class: `ints` values the integer parameters, `cls` the declared assets, `fee` is
 the fee, `assigned x` the UTxOs the resolver assigned to input `x`. -/
@@ -96,21 +99,24 @@ def den (ints : String → Int) (cls : String → AssetClass) (fee : Int) (assig
   | input x, k => TExp.utxoTotal (assigned x) k
   | add a b, k => a.den ints cls fee assigned k + b.den ints cls fee assigned k
   | sub a b, k => a.den ints cls fee assigned k - b.den ints cls fee assigned k
+  | loc _ c, k => c.den ints cls fee assigned k
 
 /-- The hypotheses: what the names resolve to, and that every intermediate per-class amount stays strictly inside
 the 128-bit range. -/
-def OK (s : Scope) (σ : ArgMap) (ints : String → Int) (cls : String → AssetClass) (ctx : Ctx) (fee : Int)
-    (ι : InputMap) (assigned : String → List UtxoMeta) : CExp → Prop
-  | pure e => ScopeOf s σ ints e.pars ∧ (∀ x ∈ e.toks, TokOf s cls x) ∧ e.Fits ints cls
-  | fees => resolve s "fees" = some .fees ∧ IExp.Small fee
-  | input x => ∃ b N, resolve s x = some (.input b) ∧ (∀ n, N ≤ n → ∃ q, lowerInput s n ctx.down b = .ok q) ∧
+def OK (s : Scope) (σ : ArgMap) (ints : String → Int) (cls : String → AssetClass) (fee : Int)
+    (ι : InputMap) (assigned : String → List UtxoMeta) : CExp → Ctx → Prop
+  | pure e, _ => ScopeOf s σ ints e.pars ∧ (∀ x ∈ e.toks, TokOf s cls x) ∧ e.Fits ints cls
+  | fees, _ => resolve s "fees" = some .fees ∧ IExp.Small fee
+  | input x, ctx => ∃ b N, resolve s x = some (.input b) ∧ (∀ n, N ≤ n → ∃ q, lowerInput s n ctx.down b = .ok q) ∧
       ∃ ds a, lookupS ι b.name.toLower = some (.node (.utxoSet (assigned x)) ds) ∧
         sumUtxoAssets (assigned x) [] = some a ∧ ∀ m ∈ assigned x, Good m.assets
-  | add a b => a.OK s σ ints cls ctx fee ι assigned ∧ b.OK s σ ints cls ctx fee ι assigned ∧
+  | add a b, ctx => a.OK s σ ints cls fee ι assigned ctx ∧ b.OK s σ ints cls fee ι assigned ctx ∧
       ∀ k, IExp.Small (a.den ints cls fee assigned k + b.den ints cls fee assigned k)
-  | sub a b => a.OK s σ ints cls ctx fee ι assigned ∧ b.OK s σ ints cls ctx fee ι assigned ∧
+  | sub a b, ctx => a.OK s σ ints cls fee ι assigned ctx ∧ b.OK s σ ints cls fee ι assigned ctx ∧
       (∀ k, IExp.Small (b.den ints cls fee assigned k)) ∧
       ∀ k, IExp.Small (a.den ints cls fee assigned k - b.den ints cls fee assigned k)
+  -- the expression behind the name is read one symbol deeper: the analyzer's snapshots bound how deep that can go
+  | loc x c, ctx => resolve s x = some (.localE c.toL) ∧ ctx.down.lvl ≠ 0 ∧ c.OK s σ ints cls fee ι assigned ctx.down
 
 end CExp
 
@@ -129,13 +135,12 @@ theorem lowerInput_shape (s : Scope) (n : Nat) (c : Ctx) (b : InputBlock) (q : E
     cases h
     exact ⟨_, rfl⟩
 
-theorem change_value (s : Scope) (σ : ArgMap) (ints : String → Int) (cls : String → AssetClass) (ctx : Ctx)
-    (hl : ctx.lvl ≠ 0) (ha : ctx.asset = true) (hA : AdaBuiltin s) (fee : Int) (ι : InputMap)
-    (assigned : String → List UtxoMeta) :
-    ∀ (c : CExp), c.OK s σ ints cls ctx fee ι assigned →
+theorem change_value (s : Scope) (σ : ArgMap) (ints : String → Int) (cls : String → AssetClass)
+    (hA : AdaBuiltin s) (fee : Int) (ι : InputMap) (assigned : String → List UtxoMeta) :
+    ∀ (c : CExp) (ctx : Ctx), ctx.lvl ≠ 0 → ctx.asset = true → c.OK s σ ints cls fee ι assigned ctx →
       ∃ N, ∀ n, N ≤ n → ∃ t, lowerE s n ctx c.toL = .ok t ∧
         ∀ m, N ≤ m → ∃ r, reduceF m (full σ fee ι t) = .ok r ∧ Denotes r (c.den ints cls fee assigned) ∧ RForm r
-  | .pure e, h => by
+  | .pure e, ctx, hl, ha, h => by
     obtain ⟨hs, ht, hf⟩ := h
     refine ⟨e.depth + 2, fun n hn => ?_⟩
     obtain ⟨t, hlow, hin, hred⟩ := lower_multi s σ ints cls ctx hl hA e hs ht hf (n - (e.depth + 2))
@@ -144,7 +149,7 @@ theorem change_value (s : Scope) (σ : ArgMap) (ints : String → Int) (cls : St
     obtain ⟨r, hr, hd, hform⟩ := hred (m - (e.depth + 2))
     rw [show e.depth + 2 + (m - (e.depth + 2)) = m by omega] at hr
     exact ⟨r, by rw [full_inert σ fee ι hin]; exact hr, hd, hform⟩
-  | .fees, h => by
+  | .fees, ctx, hl, ha, h => by
     obtain ⟨hres, hsm⟩ := h
     refine ⟨3, fun n hn => ⟨.node (.param .expectFees) [], ?_, fun m hm => ?_⟩⟩
     · obtain ⟨n', rfl⟩ : ∃ n', n = n' + 1 := ⟨n - 1, by omega⟩
@@ -154,7 +159,7 @@ theorem change_value (s : Scope) (σ : ArgMap) (ints : String → Int) (cls : St
       refine ⟨.node .assets [.leaf .none, .leaf .none, .leaf (.number fee)], ?_, hd, RForm.ada _⟩
       obtain ⟨m', rfl⟩ : ∃ m', m = (m' + 2) + 1 := ⟨m - 3, by omega⟩
       simp [full, applyFees, feeExpr, applyInputs, applyArgs, reduceF]
-  | .input x, h => by
+  | .input x, ctx, hl, ha, h => by
     obtain ⟨b, N, hres, hlow, ds, a, hlk, hsum, hgood⟩ := h
     refine ⟨N + 3, fun n hn => ?_⟩
     obtain ⟨n', rfl⟩ : ∃ n', n = n' + 1 := ⟨n - 1, by omega⟩
@@ -171,9 +176,9 @@ theorem change_value (s : Scope) (σ : ArgMap) (ints : String → Int) (cls : St
         simp [full, applyFees, applyFeesL, applyInputs, applyInputsL, applyArgs, applyArgsL, hlk, reduceF, mapMO,
           isConstantL, isConstant, reduceCoerce, intoAssets, hsum]
       · rw [hcamt k, hamt k, amt_nil]; simp [CExp.den]
-  | .add a b, h => by
-    obtain ⟨Na, hA'⟩ := change_value s σ ints cls ctx hl ha hA fee ι assigned a h.1
-    obtain ⟨Nb, hB'⟩ := change_value s σ ints cls ctx hl ha hA fee ι assigned b h.2.1
+  | .add a b, ctx, hl, ha, h => by
+    obtain ⟨Na, hA'⟩ := change_value s σ ints cls hA fee ι assigned a ctx hl ha h.1
+    obtain ⟨Nb, hB'⟩ := change_value s σ ints cls hA fee ι assigned b ctx hl ha h.2.1
     refine ⟨max Na Nb + 1, fun n hn => ?_⟩
     obtain ⟨n', rfl⟩ : ∃ n', n = n' + 1 := ⟨n - 1, by omega⟩
     obtain ⟨ta, hla, hra⟩ := hA' n' (by omega)
@@ -186,9 +191,9 @@ theorem change_value (s : Scope) (σ : ArgMap) (ints : String → Int) (cls : St
     refine ⟨r, ?_, hd, hform⟩
     rw [full_builtin2, reduce_binary_const _ .add (by decide) _ _ ra rb h1 h2 da.1 db.1]
     exact hr
-  | .sub a b, h => by
-    obtain ⟨Na, hA'⟩ := change_value s σ ints cls ctx hl ha hA fee ι assigned a h.1
-    obtain ⟨Nb, hB'⟩ := change_value s σ ints cls ctx hl ha hA fee ι assigned b h.2.1
+  | .sub a b, ctx, hl, ha, h => by
+    obtain ⟨Na, hA'⟩ := change_value s σ ints cls hA fee ι assigned a ctx hl ha h.1
+    obtain ⟨Nb, hB'⟩ := change_value s σ ints cls hA fee ι assigned b ctx hl ha h.2.1
     refine ⟨max Na Nb + 1, fun n hn => ?_⟩
     obtain ⟨n', rfl⟩ : ∃ n', n = n' + 1 := ⟨n - 1, by omega⟩
     obtain ⟨ta, hla, hra⟩ := hA' n' (by omega)
@@ -201,17 +206,25 @@ theorem change_value (s : Scope) (σ : ArgMap) (ints : String → Int) (cls : St
     refine ⟨r, ?_, hd, hform⟩
     rw [full_builtin2, reduce_binary_const _ .sub (by decide) _ _ ra rb h1 h2 da.1 db.1]
     exact hr
+  | .loc x c, ctx, hl, ha, h => by
+    obtain ⟨hres, hl', hc⟩ := h
+    obtain ⟨N, hN⟩ := change_value s σ ints cls hA fee ι assigned c ctx.down hl' (by simpa [Ctx.down] using ha) hc
+    refine ⟨N + 1, fun n hn => ?_⟩
+    obtain ⟨n', rfl⟩ : ∃ n', n = n' + 1 := ⟨n - 1, by omega⟩
+    obtain ⟨t, hlow, hred⟩ := hN n' (by omega)
+    exact ⟨t, by simp [CExp.toL, lowerE, hl, hres, hlow], fun m hm => hred m (by omega)⟩
 
 /-- **C01 (from the source to the value).** An amount written with asset constructors, `fees`, input names, `+`
-and `-` - `source - Ada(quantity) - fees`, the change of every example - lowers, and after the arguments, the
+`-` and names of locals standing for such amounts - `source - Ada(quantity) - fees`, the change of every example,
+written in place or behind a local - lowers, and after the arguments, the
 inputs and the fee are applied reduces to a constant asset list holding, of every asset class, exactly what integer
 arithmetic gives for the expression as written. -/
 theorem C01_source_to_value (s : Scope) (σ : ArgMap) (ints : String → Int) (cls : String → AssetClass) (ctx : Ctx)
     (hl : ctx.lvl ≠ 0) (ha : ctx.asset = true) (hA : AdaBuiltin s) (fee : Int) (ι : InputMap)
-    (assigned : String → List UtxoMeta) (c : CExp) (h : c.OK s σ ints cls ctx fee ι assigned) :
+    (assigned : String → List UtxoMeta) (c : CExp) (h : c.OK s σ ints cls fee ι assigned ctx) :
     ∃ N, ∀ n, N ≤ n → ∃ t, lowerE s n ctx c.toL = .ok t ∧
       ∀ m, N ≤ m → ∃ r, reduceF m (full σ fee ι t) = .ok r ∧ Denotes r (c.den ints cls fee assigned) ∧ RForm r :=
-  change_value s σ ints cls ctx hl ha hA fee ι assigned c h
+  change_value s σ ints cls hA fee ι assigned c ctx hl ha h
 
 /-- The order of the stages does not matter (C07): the same holds for the pipeline's order. -/
 theorem full_pipeline_order (σ : ArgMap) (fee : Int) (ι : InputMap) (t : Expr) :
@@ -258,7 +271,13 @@ example : AdaBuiltin chScope := by
   · simp [resolve, resolveOuter, indexOfOutput, indexOfOutput.go, lastWith, maProg, maTx, chScope, chTx, chBlock]
   · simp [maProg, chScope]
 
-example : chExp.OK chScope chArgs chInts maCls { asset := true } 170000 chInputs exAssigned := by
+/-- The same transaction with the change behind a local: `locals { change: source - Ada(quantity) - fees, }`. -/
+def chTx2 : TxDef := { chTx with locals := [("change", chExp.toL)] }
+def chScope2 : Scope := { prog := maProg, tx := chTx2 }
+
+theorem chOK_core (sc : Scope) (ctx : Ctx) (h1 : resolve sc "source" = some (.input chBlock))
+    (h2 : resolve sc "quantity" = some (.param "quantity" .int)) (h3 : resolve sc "fees" = some .fees) :
+    chExp.OK sc chArgs chInts maCls 170000 chInputs exAssigned ctx := by
   have hs : sumUtxoAssets [exMeta] [] = some [(AssetClass.naked, 5000000)] := by
     simp [sumUtxoAssets, exMeta, addRaw, upsert, fitsI128, inI128, i128Min, i128Max, retainNZ]
   have d1 : ∀ k, TExp.utxoTotal (exAssigned "source") k = if k = AssetClass.naked then 5000000 else 0 := by
@@ -267,8 +286,7 @@ example : chExp.OK chScope chArgs chInts maCls { asset := true } 170000 chInputs
     · subst hk; simp [TExp.utxoTotal, exAssigned, exMeta, amt, get?]
     · have : ¬ AssetClass.naked = k := fun e => hk e.symm
       simp [TExp.utxoTotal, exAssigned, exMeta, amt, get?, hk, this]
-  refine ⟨⟨⟨chBlock, 1, ?_, ?_, [], _, ?_, by simpa [exAssigned] using hs, ?_⟩, ⟨?_, ?_, ?_⟩, ?_, ?_⟩, ⟨?_, ?_⟩, ?_, ?_⟩
-  · simp [resolve, resolveOuter, indexOfOutput, indexOfOutput.go, lastWith, maProg, maTx, chScope, chTx, chBlock]
+  refine ⟨⟨⟨chBlock, 1, h1, ?_, [], _, ?_, by simpa [exAssigned] using hs, ?_⟩, ⟨?_, ?_, ?_⟩, ?_, ?_⟩, ⟨h3, ?_⟩, ?_, ?_⟩
   · intro n hn
     obtain ⟨n', rfl⟩ : ∃ n', n = n' + 1 := ⟨n - 1, by omega⟩
     exact ⟨.node (.param (.expectInput "source".toLower false false)) [none', none', none'],
@@ -278,14 +296,11 @@ example : chExp.OK chScope chArgs chInts maCls { asset := true } 170000 chInputs
   · intro x hx
     simp [MExp.pars, IExp.pars] at hx
     subst hx
-    refine ⟨⟨.int, ?_⟩, ?_⟩
-    · simp [resolve, resolveOuter, indexOfOutput, indexOfOutput.go, lastWith, maProg, maTx, chScope, chTx, chBlock]
-    · simp [chArgs, lookupS, chInts]
+    exact ⟨⟨.int, h2⟩, by simp [chArgs, lookupS, chInts]⟩
   · intro x hx; simp [MExp.toks] at hx
   · simp [MExp.Fits, IExp.Fits, chInts, IExp.Small]
   · intro k; simp only [CExp.den, MExp.den, IExp.den, chInts]; unfold IExp.Small; split <;> omega
   · intro k; simp only [CExp.den, MExp.den, IExp.den, chInts]; rw [d1 k]; unfold IExp.Small; split <;> omega
-  · simp [resolve, resolveOuter, indexOfOutput, indexOfOutput.go, lastWith, maProg, maTx, chScope, chTx, chBlock]
   · unfold IExp.Small; omega
   · intro k; simp only [CExp.den]; unfold IExp.Small; split <;> omega
   · intro k
@@ -293,6 +308,19 @@ example : chExp.OK chScope chArgs chInts maCls { asset := true } 170000 chInputs
     rw [d1 k]
     unfold IExp.Small
     split <;> omega
+
+/-- `source - Ada(quantity) - fees` written in place… -/
+example : chExp.OK chScope chArgs chInts maCls 170000 chInputs exAssigned { asset := true } :=
+  chOK_core _ _
+    (by simp [resolve, resolveOuter, indexOfOutput, indexOfOutput.go, lastWith, maProg, maTx, chScope, chTx, chBlock])
+    (by simp [resolve, resolveOuter, indexOfOutput, indexOfOutput.go, lastWith, maProg, maTx, chScope, chTx, chBlock])
+    (by simp [resolve, resolveOuter, indexOfOutput, indexOfOutput.go, lastWith, maProg, maTx, chScope, chTx, chBlock])
+
+/-- …and behind a local: the amount `change` in a transaction with `locals { change: source - Ada(quantity) - fees, }`. -/
+example : (CExp.loc "change" chExp).OK chScope2 chArgs chInts maCls 170000 chInputs exAssigned { asset := true } := by
+  refine ⟨?_, by simp [Ctx.down], chOK_core _ _ ?_ ?_ ?_⟩ <;>
+  simp [resolve, resolveOuter, indexOfOutput, indexOfOutput.go, lastWith, maProg, maTx, chScope2, chTx2, chTx, chBlock, chExp,
+    CExp.toL, MExp.toL, IExp.toL]
 
 /-- What the theorem then says of it: 5 000 000 - 2 000 000 - 170 000 lovelace, nothing of any other class. -/
 example : chExp.den chInts maCls 170000 exAssigned AssetClass.naked = 2830000 := by
